@@ -15,7 +15,7 @@ from fractions import Fraction
 import z3
 
 BRANCH_TIMEOUT_MS = 20_000
-PROVE_TIMEOUT_MS = 60_000
+PROVE_TIMEOUT_MS = 30_000
 
 
 class Signal(BaseException):
@@ -141,8 +141,26 @@ class Ctx:
                 self.assume(r > 0)
                 if z3.is_rational_value(arg) and arg.numerator_as_long() == 0:
                     self.assume(r == 1)
+                else:
+                    self.assume((arg == 0) == (r == 1))
+                if z3.is_app(arg) and arg.decl().name() == "log" and arg.num_args() == 1:
+                    inner = arg.arg(0)
+                    self.assume(z3.Implies(inner > 0, r == inner))
+            elif name == "log":
+                if z3.is_app(arg) and arg.decl().name() == "exp" and arg.num_args() == 1:
+                    self.assume(r == arg.arg(0))
+                if z3.is_rational_value(arg) and arg.numerator_as_long() == arg.denominator_as_long():
+                    self.assume(r == 0)
+                else:
+                    self.assume(z3.Implies(arg > 0, (arg == 1) == (r == 0)))
+                    self.assume(z3.Implies(arg > 0, (arg > 1) == (r > 0)))
             elif name == "sqrt":
-                self.assume(z3.Implies(arg >= 0, z3.And(r >= 0, r * r == arg)))
+                # the defining axiom only for small arguments: with large polynomial arguments it makes every
+                # later feasibility query a hard NRA problem; large ones are handled by congruence (Atomizer)
+                if len(arg.sexpr()) < 300:
+                    self.assume(z3.Implies(arg >= 0, z3.And(r >= 0, r * r == arg)))
+                else:
+                    self.assume(r >= 0)
             elif name in ("sin", "cos"):
                 s, c = uf_decl("sin")(arg), uf_decl("cos")(arg)
                 self.assume(s * s + c * c == 1)
@@ -155,13 +173,17 @@ class Ctx:
         return r
 
     # ------------------------------------------------------------------ forking
-    def _check(self, *extra):
+    def _check(self, *extra, timeout_ms=None):
         t0 = time.time()
         self.solver.push()
+        if timeout_ms:
+            self.solver.set("timeout", timeout_ms)
         for e in extra:
             self.solver.add(e)
         r = str(self.solver.check())
         self.solver.pop()
+        if timeout_ms:
+            self.solver.set("timeout", BRANCH_TIMEOUT_MS)
         self.stats.solver_s += time.time() - t0
         self.stats.branch_queries += 1
         return r
@@ -194,6 +216,21 @@ class Ctx:
         self.solver.add(c)
         return d
 
+    def implied(self, cond):
+        """True / False if the path condition (with assumptions) decides cond, else None. Cached per path."""
+        key = cond.get_id()
+        cache = self.__dict__.setdefault("_implied", {})
+        if key in cache:
+            return cache[key][1]
+        t = self._check(cond, timeout_ms=2000)
+        if t == "unsat":
+            r = False
+        else:
+            f = self._check(z3.Not(cond), timeout_ms=2000)
+            r = True if f == "unsat" else None
+        cache[key] = (cond, r)
+        return r
+
     def choose(self, n, label="choice"):
         """Symbolic choice among range(n) realised as forks (finite-domain variable)."""
         v = z3.Int(f"{label}!{len(self.decisions)}")
@@ -204,7 +241,7 @@ class Ctx:
         return n - 1
 
     # ------------------------------------------------------------------ deciding
-    def prove(self, goal, timeout_ms=PROVE_TIMEOUT_MS, extra=()):
+    def prove(self, goal, timeout_ms=None, extra=()):
         """Return ('unsat'|'sat'|'unknown', model|None) for pc ∧ assumptions ∧ extra ∧ ¬goal."""
         goal = getattr(goal, "e", goal)
         if isinstance(goal, bool):
@@ -214,7 +251,7 @@ class Ctx:
             self.stats.prove["unsat"] += 1
             return "unsat", None
         s = z3.Solver()
-        s.set("timeout", timeout_ms)
+        s.set("timeout", timeout_ms or PROVE_TIMEOUT_MS)
         for e in self.pc:
             s.add(e)
         for e in self.assumptions:
@@ -238,8 +275,11 @@ class Ctx:
         names = {}
         for a in s.assertions():
             free_vars(a, names)
-        s.set("timeout", 3000)
+        s.set("timeout", 500)
+        t_end = time.time() + 8.0
         for name in sorted(names)[:max_vars]:
+            if time.time() > t_end:
+                break
             v = names[name]
             if not z3.is_real(v) or "!" in name:
                 continue
@@ -500,3 +540,99 @@ def poly_zero(a, b):
     (an, ad), (bn, bd) = ratnorm(a), ratnorm(b)
     d = z3.simplify(an * bd - bn * ad, som=True)
     return z3.is_rational_value(d) and d.numerator_as_long() == 0
+
+
+# ---------------------------------------------------------------------- congruence + normal form fast path
+class Atomizer:
+    """Replaces UF applications / ITEs by constants, two applications getting the same constant iff their
+    (recursively atomized) arguments are equal as rational functions.  Sound for proving equalities."""
+
+    def __init__(self, implied=None):
+        self.atoms = {}  # function name -> list of (args, const)
+        self.cache = {}
+        self.n = 0
+        self.implied = implied  # optional callback cond -> True/False/None (decides ITE conditions under the pc)
+
+    def run(self, t):
+        k = t.get_id()
+        if k in self.cache:
+            return self.cache[k]
+        r = self._run(t)
+        self.cache[k] = r
+        return r
+
+    def _atom(self, name, args):
+        lst = self.atoms.setdefault(name, [])
+        for oargs, c in lst:
+            if len(oargs) == len(args) and all(
+                (z3.is_bool(x) and x.eq(y)) or (not z3.is_bool(x) and poly_zero(x, y)) for x, y in zip(oargs, args)
+            ):
+                return c
+        self.n += 1
+        c = z3.Real(f"atom!{self.n}")
+        lst.append((args, c))
+        return c
+
+    def _run(self, t):
+        if z3.is_const(t) or z3.is_rational_value(t) or z3.is_algebraic_value(t):
+            return t
+        kind = t.decl().kind()
+        if kind == z3.Z3_OP_ITE and self.implied is not None:
+            c = t.children()[0]
+            d = self.implied(c)
+            if d is True:
+                return self.run(t.children()[1])
+            if d is False:
+                return self.run(t.children()[2])
+        ch = [self.run(c) for c in t.children()]
+        if kind == z3.Z3_OP_UNINTERPRETED:
+            if len(ch) == 1:
+                a0 = z3.simplify(ch[0])
+                if z3.is_rational_value(a0):
+                    folded = _fold_const(t.decl().name(), a0)
+                    if folded is not None:
+                        return folded
+            return self._atom(t.decl().name(), ch)
+        if kind == z3.Z3_OP_ITE:
+            return self._atom("ite", [z3.simplify(ch[0]), ch[1], ch[2]])
+        if all(a.eq(b) for a, b in zip(ch, t.children())):
+            return t
+        return t.decl()(*ch)
+
+
+def _fold_const(name, a0):
+    """Exact values of the transcendental UFs at the few rational points where they are rational."""
+    num, den = a0.numerator_as_long(), a0.denominator_as_long()
+    if num == 0:
+        return {"exp": z3.RealVal(1), "sqrt": z3.RealVal(0), "sin": z3.RealVal(0), "cos": z3.RealVal(1),
+                "erf": z3.RealVal(0), "erfcx": z3.RealVal(1)}.get(name)
+    if name == "log" and num == den:
+        return z3.RealVal(0)
+    if name == "sqrt" and num > 0:
+        import math
+
+        rn, rd = math.isqrt(num), math.isqrt(den)
+        if rn * rn == num and rd * rd == den:
+            return z3.Q(rn, rd)
+    return None
+
+
+def fast_valid(goal, implied=None):
+    """True if the goal is valid by normal form + congruence alone (equalities / conjunctions)."""
+    if z3.is_true(goal):
+        return True
+    if not z3.is_app(goal):
+        return False
+    k = goal.decl().kind()
+    if k == z3.Z3_OP_AND:
+        return all(fast_valid(c, implied) for c in goal.children())
+    if k == z3.Z3_OP_EQ:
+        a, b = goal.children()
+        if not z3.is_real(a) and not z3.is_int(a):
+            return False
+        at = Atomizer(implied)
+        try:
+            return poly_zero(at.run(a), at.run(b))
+        except z3.Z3Exception:
+            return False
+    return False
